@@ -570,3 +570,141 @@ pub fn resolved(_fields: &[&str]) -> String
 {
 	"todo".into()
 }
+
+// ---- C07: the type-agreement relations of value_type.rs on a pair of types given as S-expressions ----
+
+type VT = penne::alpha::value_type::ValueType<String>;
+
+fn vt_tokens(s: &str) -> Vec<String>
+{
+	let mut out = Vec::new();
+	let mut cur = String::new();
+	for c in s.chars()
+	{
+		match c
+		{
+			'(' | ')' =>
+			{
+				if !cur.is_empty()
+				{
+					out.push(std::mem::take(&mut cur));
+				}
+				out.push(c.to_string());
+			}
+			' ' =>
+			{
+				if !cur.is_empty()
+				{
+					out.push(std::mem::take(&mut cur));
+				}
+			}
+			_ => cur.push(c),
+		}
+	}
+	if !cur.is_empty()
+	{
+		out.push(cur);
+	}
+	out
+}
+
+fn vt_parse(toks: &[String], i: &mut usize) -> Option<VT>
+{
+	let t = toks.get(*i)?.clone();
+	*i += 1;
+	if t != "("
+	{
+		return Some(match t.as_str()
+		{
+			"void" => VT::Void,
+			"i8" => VT::Int8,
+			"i16" => VT::Int16,
+			"i32" => VT::Int32,
+			"i64" => VT::Int64,
+			"i128" => VT::Int128,
+			"u8" => VT::Uint8,
+			"u16" => VT::Uint16,
+			"u32" => VT::Uint32,
+			"u64" => VT::Uint64,
+			"u128" => VT::Uint128,
+			"usize" => VT::Usize,
+			"char8" => VT::Char8,
+			"bool" => VT::Bool,
+			"unresolved" => VT::UnresolvedStructOrWord { identifier: None },
+			_ => return None,
+		});
+	}
+	let head = toks.get(*i)?.clone();
+	*i += 1;
+	let mut num = |i: &mut usize| -> Option<usize> {
+		let v = toks.get(*i)?.parse::<usize>().ok()?;
+		*i += 1;
+		Some(v)
+	};
+	let r = match head.as_str()
+	{
+		"array" =>
+		{
+			let n = num(i)?;
+			let t = vt_parse(toks, i)?;
+			VT::Array { element_type: Box::new(t), length: n }
+		}
+		"named" =>
+		{
+			let n = num(i)?;
+			let t = vt_parse(toks, i)?;
+			VT::ArrayWithNamedLength { element_type: Box::new(t), named_length: format!("N{}", n) }
+		}
+		"slice" => VT::Slice { element_type: Box::new(vt_parse(toks, i)?) },
+		"sliceptr" => VT::SlicePointer { element_type: Box::new(vt_parse(toks, i)?) },
+		"endless" => VT::EndlessArray { element_type: Box::new(vt_parse(toks, i)?) },
+		"arraylike" => VT::Arraylike { element_type: Box::new(vt_parse(toks, i)?) },
+		"pointer" => VT::Pointer { deref_type: Box::new(vt_parse(toks, i)?) },
+		"view" => VT::View { deref_type: Box::new(vt_parse(toks, i)?) },
+		"struct" => VT::Struct { identifier: format!("S{}", num(i)?) },
+		"word" =>
+		{
+			let id = num(i)?;
+			let sz = num(i)?;
+			VT::Word { identifier: format!("S{}", id), size_in_bytes: sz }
+		}
+		"unresolved" => VT::UnresolvedStructOrWord { identifier: Some(format!("S{}", num(i)?)) },
+		_ => return None,
+	};
+	if toks.get(*i)? != ")"
+	{
+		return None;
+	}
+	*i += 1;
+	Some(r)
+}
+
+/// `agree <type a> <type b>`
+pub fn agree(fields: &[&str]) -> String
+{
+	if fields.len() != 2
+	{
+		return "bad-request".into();
+	}
+	let parse = |s: &str| -> Option<VT> {
+		let toks = vt_tokens(s);
+		let mut i = 0;
+		let t = vt_parse(&toks, &mut i)?;
+		if i == toks.len() { Some(t) } else { None }
+	};
+	match (parse(fields[0]), parse(fields[1]))
+	{
+		(Some(a), Some(b)) =>
+		{
+			let bit = |v: bool| if v { "1" } else { "0" };
+			format!(
+				"declared={} conc={} coerce={} coerceaddr={}",
+				bit(a.can_be_declared_as(&b)),
+				bit(a.can_be_concretization_of(&b)),
+				bit(a.can_coerce_into(&b)),
+				bit(a.can_coerce_address_into(&b))
+			)
+		}
+		_ => "bad-request".into(),
+	}
+}
